@@ -1452,7 +1452,7 @@ class SymExec:
             m = self.model(st, fr, name, args, targs, ev)
             if m is not None:
                 val = m
-            elif self.should_inline(name, depth):
+            elif self.should_inline(name, sum(1 for fr_ in st.frames[1:] if fr_.body.kind != "Closure")):
                 body = self.facts.bodies[name]
                 nf = Frame(body, st.nfid, self.sub_cgen(fr, body, targs), self.sub_tgen(fr, body, targs))
                 st.nfid += 1
